@@ -21,7 +21,7 @@ THEOREMS = [
     "transport_reply_counts_as_200", "fault_reported", "fault_never_ordinary",
     "fault_detected_any_shape", "nonfault_never_webfault", "silent_statuses_only",
     "table_accepts_model", "silent_any_content", "other_status_any_content",
-    "status500_never_ordinary",
+    "status500_never_ordinary", "paths_coincide_any_content", "other_status_any_path",
 ]
 
 PRE = "From SV Require Import Lib.Base Gen.C09Tables C09.Model."
